@@ -67,6 +67,13 @@ POOL = [
     ("(a: Qint[2], b: Qint[2], c: Qint[2]) -> bool", "return a < b and b < c"),
     ("(a: Qint[2], b: Qint[2]) -> Qint[4]", "return a * b"),
     ("(a: Qlist[bool, 3]) -> bool", "return a[0] or a[1] or not a[2]"),
+    # return types wider than the value: constant return bits next to non-constant ones
+    ("(a: bool) -> Qint[2]", "return 1 if a else 0"),
+    ("(a: Qint[2]) -> Qint[4]", "return a + 1"),
+    ("(a: bool, b: bool) -> Qint[2]", "return 2 if (a and b) else 3"),
+    ("(a: Qint[2]) -> Qint[4]", "return a"),
+    ("(a: bool, b: bool) -> Tuple[bool, bool, bool]", "return (a or b, True, not a)"),
+    ("(a: bool, b: bool) -> Tuple[bool, bool]", "return (a ^ b, False)"),
 ]
 
 
@@ -326,7 +333,14 @@ def _fun_info(src, compiler=None, qasm=False):
 
 
 def make_script(funcs):
-    return HEADER + "\n".join(f"@qlassf\n{src}\n" for _, src in funcs)
+    """Every other function is created with the string form name = qlassf(src) instead of the decorator."""
+    parts = []
+    for i, (nme, src) in enumerate(funcs):
+        if (len(nme) + i) % 3 == 1:
+            parts.append(f"{nme} = qlassf({src!r})\n")
+        else:
+            parts.append(f"@qlassf\n{src}\n")
+    return HEADER + "\n".join(parts)
 
 
 def expected_name(task):
